@@ -145,6 +145,26 @@ def c19(tier, seed, t0):
                           outside="files ending without newline; insertion inside definitions"))
 
 
+@register("C04")
+def c04(tier, seed, t0):
+    from harness import cli as H
+    nmax = 4 if tier == "quick" else 5
+    res = R.run_pool(H.HNAME, H.chunks(tier, nmax), 150 if tier == "quick" else 1500, seed, tier,
+                     extra=dict(sample_rate=0.05 if tier == "quick" else 0.02))
+    agg = R.merge(res)
+    bounds = dict(files="0..%d per run, every order and repetition of the classes clean / notice-only / erroneous / fatal" % nmax,
+                  diagnostics_per_file="0..2, level symbolic (Error | Notice)", formats=["humanized", "json"],
+                  selection=["explicit paths", "directory argument (cwd for n = 0)", "same file twice"],
+                  outside="more than %d files; --cfile/--hfile (C16); file discovery itself (C15)" % nmax)
+    return R.report("C04", H.HNAME, tier, seed, agg, t0, bounds,
+                    functions=["norminette.__main__.main (argparse, file loop, except CParsingError, formatter call, sys.exit)",
+                               "norminette.errors.Errors.status", "Errors.__iter__", "HumanizedErrorsFormatter.__str__",
+                               "JSONErrorsFormatter.__str__", "norminette.file.File.__init__"],
+                    assumptions=["stub: Lexer yields no token; Registry.run either raises CParsingError or adds 0..2 diagnostics "
+                                 "whose level is a solver variable (the contract of the real analysis)",
+                                 "counterexamples are replayed through the real command line on real files of the same classes"])
+
+
 def main():
     ap = argparse.ArgumentParser()
     ap.add_argument("prop")
